@@ -29,11 +29,16 @@ type gval struct {
 	safe  bool
 }
 
-func gNil() *gval            { return &gval{kind: 'n'} }
-func gBool(b bool) *gval     { if b { return &gval{kind: 't'} }; return &gval{kind: 'f'} }
-func gInt(i int) *gval       { return &gval{kind: 'i', i: i} }
-func gFloat(txt string) *gval { return &gval{kind: 'd', txt: txt} }
-func gStr(s string) *gval    { return &gval{kind: 's', txt: s} }
+func gNil() *gval { return &gval{kind: 'n'} }
+func gBool(b bool) *gval {
+	if b {
+		return &gval{kind: 't'}
+	}
+	return &gval{kind: 'f'}
+}
+func gInt(i int) *gval           { return &gval{kind: 'i', i: i} }
+func gFloat(txt string) *gval    { return &gval{kind: 'd', txt: txt} }
+func gStr(s string) *gval        { return &gval{kind: 's', txt: s} }
 func gList(items ...*gval) *gval { return &gval{kind: 'L', items: items} }
 func gMap(keys []string, items []*gval) *gval {
 	// keys sorted (the model keeps map entries sorted by key)
